@@ -410,6 +410,13 @@ def corpus():
               b'SSH-2.0-cryptlibx\n', b'SSH-2.0-dropbear\n', b'SSH-2.0-OpenSSH_7.4 \n', b'SSH-2.0-x' + b' y' * 120 + b'\n',
               b'SSH-2.' + b'0' * 240 + b'-x\n', b'SSH-2.0-x\n\r', b'\n', b'SSH-2.0-\x00\n']:
         out.append(('SshProtocolMessage', b))
+    # the 255-byte limit is on the composed (CR LF terminated) form; exactly one LF ends the string
+    for total in (253, 254, 255, 256):
+        out.append(('SshProtocolMessage', b'SSH-2.0-' + b'x' * (total - 9) + b'\n'))           # bare LF
+        out.append(('SshProtocolMessage', b'SSH-2.0-' + b'x' * (total - 10) + b'\r\n'))
+        out.append(('SshProtocolMessage', b'SSH-2.0-' + b'x' * (total - 12) + b' c\r\n\n\n'))
+        out.append(('SshProtocolMessage', b'SSH-2.0-' + b'x' * (total - 11) + b' \r\n'))
+        out.append(('SshProtocolMessage', b'SSH-2.0-' + b'x' * (total - 10) + b' \n'))
     out.append(('SshProtocolMessage', b'SSH-2.' + b'1' * 4301 + b'-x\n'))
     out.append(('SshProtocolMessage', b'SSH-' + b'2' * 4301 + b'.0-x\n'))
     for b in [b'2.0', b'1.99', b'3.0', b'2', b'2.', b'.0', b'2..0', b'02.010x', b'2.0-', b'x']:
